@@ -22,7 +22,7 @@ Definition def_tyguard_src (p : fcprog) (data codata : list ctydecl) (d : fdef) 
   && tg p data codata (compile_ctx (fdctx d)) (fdbody d)
   && (has_ty (fdbody d) (compile_ty (fdret d)) && tyd data codata (compile_ty (fdret d))).
 Definition prog_tyguard_src (p : fcprog) : bool :=
-  decls_tyguard p && negb (calls_main_prog p) && forallb (def_tyguard_src p (cdata_of p) (ccodata_of p)) (fcpdefs p).
+  decls_tyguard p && forallb (def_tyguard_src p (cdata_of p) (ccodata_of p)) (fcpdefs p).
 
 Lemma def_tyguard_src_main : forall p data codata d,
   main_ret_ok d = true -> def_tyguard_src p data codata d = true -> def_tyguard p data codata d = true.
@@ -30,8 +30,8 @@ Proof.
   intros p data codata d Hm H. unfold def_tyguard_src in H. unfold def_tyguard.
   apply andb_true_iff in H. destruct H as [H Hr]. rewrite H. simpl.
   unfold main_ret_ok in Hm. destruct (String.eqb (fdname d) "main"); [|exact Hr].
-  apply fty_eqb_eq in Hm. rewrite Hm in Hr. simpl in Hr.
-  apply andb_true_iff in Hr. exact (proj1 Hr).
+  apply fty_eqb_eq in Hm. rewrite Hm in Hr. rewrite Hm. simpl in Hr. simpl.
+  apply andb_true_iff in Hr. rewrite (proj1 Hr). rewrite orb_true_r. reflexivity.
 Qed.
 Lemma tyguard_src_main : forall p,
   forallb main_ret_ok (fcpdefs p) = true -> prog_tyguard_src p = true -> prog_tyguard p = true.
@@ -50,7 +50,7 @@ Proof.
   unfold def_tyguard in H. unfold def_tyguard_src.
   apply andb_true_iff in H. destruct H as [H Hr]. rewrite H. simpl.
   unfold main_ret_ok in Hm. destruct (String.eqb (fdname d) "main"); [|exact Hr].
-  apply fty_eqb_eq in Hm. rewrite Hm. simpl. rewrite Hr. reflexivity.
+  apply fty_eqb_eq in Hm. rewrite Hm. simpl. apply andb_true_iff in Hr. rewrite (proj1 Hr). reflexivity.
 Qed.
 
 Theorem tyguard_src_checked : forall eager src p,
